@@ -42,6 +42,10 @@ pub fn install_panic_hook() {
     }));
 }
 
+pub fn clear_panic() {
+    LAST_PANIC.lock().unwrap_or_else(|e| e.into_inner()).take();
+}
+
 pub fn record_panic(_payload: Box<dyn Any + Send>) {
     let msg = LAST_PANIC
         .lock()
